@@ -92,7 +92,8 @@ static void body(void) {
 		for (int mi = 0; mi < nml; mi++) for (int ai = 0; ai < 7; ai++) { if (ai >= 3 && !vh_thorough && mi != 1) continue; /* the block-aligned AAD lengths with one message length in the quick tier */
 			size_t tl0 = 12, tl1 = 16, tstep = vh_thorough ? 1 : 4; if (!strcmp(s->name, "sm4-ccm")) { tl0 = 4; tstep = vh_thorough ? 2 : 6; } if (strstr(s->name, "hmac")) { tl0 = tl1 = 32; }
 			for (size_t tl = tl0; tl <= tl1; tl += tstep) {
-				size_t nls[3] = { s->noncelen, 0, 0 }; int nn = 1; if (s->varnonce && vh_thorough) { if (!strcmp(s->name, "sm4-ccm")) { nls[1] = 7; nls[2] = 13; nn = 3; } else { nls[1] = 1; nls[2] = 16; nn = 3; } }
+				size_t nls[4] = { s->noncelen, 0, 0, 0 }; int nn = 1; /* other nonce lengths (GCM derives the counter block through GHASH then): thorough everywhere, quick with one message / AAD length */
+				if (s->varnonce && (vh_thorough || (mi == 1 && ai == 1))) { if (!strcmp(s->name, "sm4-ccm")) { nls[1] = 7; nls[2] = 13; nn = 3; } else { nls[1] = 1; nls[2] = 16; nls[3] = 8; nn = 4; } }
 				for (int ni = 0; ni < nn; ni++) { if (!vh_next()) continue; one_sealed(s, ML[mi], AL[ai], tl, nls[ni]); }
 			}
 		}
